@@ -298,7 +298,12 @@ def handle (line : String) : String :=
         let d5 := if (goRes.splitOn " ").contains "MODIFIED" then "SPEC C04:input-buffer-modified" else ""
         let d6 := if ((goChain.splitOn ",").getLast?.map (fun e => (e.splitOn "|").headD "")) != some (bhex mimeOctet)
                   then "SPEC C02:chain-not-rooted-at-octet-stream" else ""
-        let all := [d1, d2, d3, d3b, d4, d5, d6].filter (· != "")
+        -- C02: a parameter only on the three text types (the type of the reported leaf itself)
+        let leafMime := ((goChain.splitOn ",").headD "").splitOn "|" |>.headD ""
+        let goStr := ((goRes.splitOn " ").getD 1 "")
+        let three := [bhex mimeTextPlain, bhex mimeTextHtml, bhex mimeTextXml]
+        let d7 := if !three.contains leafMime && goStr != leafMime then "SPEC C02:parameter-on-a-type-other-than-the-three-text-types" else ""
+        let all := [d1, d2, d3, d3b, d4, d5, d6, d7].filter (· != "")
         if all.isEmpty then "OK" else String.intercalate " ; " all
       | _, _, _ => "BAD args"
     | ["xlookup", script, nm] =>
